@@ -649,6 +649,33 @@ func (p *Prog) Method(q string) *types.Func {
 		p.fuzzy = append(p.fuzzy, q+" -> "+names[j])
 		return ms[j]
 	}
+	// moved method: the one method of that exact name on another type of the same package
+	if _, isIface := n.Underlying().(*types.Interface); !isIface {
+		var moved []*types.Func
+		sc := n.Obj().Pkg().Scope()
+		for _, tn := range sc.Names() {
+			o, ok := sc.Lookup(tn).(*types.TypeName)
+			if !ok || o.IsAlias() {
+				continue
+			}
+			nt, ok := o.Type().(*types.Named)
+			if !ok || nt == n {
+				continue
+			}
+			if _, isI := nt.Underlying().(*types.Interface); isI {
+				continue
+			}
+			for k := 0; k < nt.NumMethods(); k++ {
+				if nt.Method(k).Name() == q[i+1:] {
+					moved = append(moved, nt.Method(k))
+				}
+			}
+		}
+		if len(moved) == 1 {
+			p.fuzzy = append(p.fuzzy, q+" -> moved to "+moved[0].FullName())
+			return moved[0]
+		}
+	}
 	return nil
 }
 
